@@ -258,3 +258,46 @@ Fixpoint all2 {A} (e : A -> A -> bool) (l1 l2 : list A) : bool :=
   end.
 Definition run_matches (h x : N) (ops : list op) (expected : list (N * list N)) : bool :=
   all2 res_eqb (map res_code (snd (run (new_tree h x 0%Z) ops))) expected.
+
+(* ------------------------------------------------------------------ additions (audit round) *)
+
+(* GetHashesAtNumber, full strength: between the root's and the best block's number it reports
+   exactly the held blocks with that number; outside it answers the empty list (the code's
+   design) *)
+Definition s_at_number (s : sst) (num : N) : list N :=
+  filter (fun h => match s_number s h with Some k => k =? num | None => false end) (s_hashes s).
+
+Definition check_at_number_full (s : sst) (num : N) (l : list N) : bool :=
+  match s_best_hash s with
+  | Some b =>
+    match s_number s b with
+    | Some bn =>
+      if (num <? s_rootnum s) || (bn <? num) then (match l with [] => true | _ => false end)
+      else perm_eqb l (s_at_number s num)
+    | None => false
+    end
+  | None => false
+  end.
+
+(* the additions a history accepted, as block records, in order *)
+Definition accepted_of (s : sst) (o : op) : list blk :=
+  match o with
+  | OAdd hd a => match s_add s hd a with
+                 | Ok s' => skipn (length (s_blocks s)) (s_blocks s')
+                 | _ => []
+                 end
+  | OFin _ => []
+  end.
+
+Fixpoint accepted (s : sst) (ops : list op) : list blk :=
+  match ops with
+  | [] => []
+  | o :: r => accepted_of s o ++ accepted (fst (s_step s o)) r
+  end.
+
+(* used by the vm_compute cross-check of the C16 driver *)
+Definition best_matches (h x : N) (ops : list op) (want : N) : bool :=
+  match best_block_hash (fst (run (new_tree h x 0%Z) ops)) with
+  | Ok b => b =? want
+  | _ => false
+  end.
